@@ -635,3 +635,55 @@ def all_obligations(chk):
     level_obligations(chk)
     post_init_obligations(chk)
     order_obligations(chk)
+    root_label_obligations(chk)
+
+
+# ----------------------------------------------------------------------------- root-label independence (NewType / alias roots)
+def root_label_obligations(chk):
+    """static_order(t) and static_order(unwrap(t)) differ only in the root node's label: the loop of get_type_graph reads the root
+    annotation t only to build the root node and to seed `visited`, and reads `visited` only through the test
+    `child in visited or unwrapped in visited` - whose answer does not depend on whether t itself is in the set, because the
+    unwrapped root is (fix f82f05c) and unwrap is idempotent.  (R1: SMT lemma over the unwrap contract; R2: dataflow scan of
+    the real AST; the simulation argument that puts them together is on paper.)"""
+    import ast
+    func = f"{G}.get_type_graph"
+    # R1
+    t, c = z3.Consts("t c", Val)
+    V = z3.Const("V", ArrB)                                  # the visited set of the run on unwrap(t)
+    u = unwrap_f(t)
+    hyp = [z3.Select(V, u), t != u,                          # the unwrapped root is visited; t is a genuine wrapper
+           unwrap_f(u) == u, unwrap_f(unwrap_f(c)) == unwrap_f(c)]
+    VA = z3.Store(V, t, z3.BoolVal(True))                    # the visited set of the run on t: additionally t itself
+    in_a = z3.Or(z3.Select(VA, c), z3.Select(VA, unwrap_f(c)))
+    in_b = z3.Or(z3.Select(V, c), z3.Select(V, unwrap_f(c)))
+    chk.add(Ob(func, "root-label::the-visited-test-does-not-depend-on-the-root-label", "lemma", hyp, in_a == in_b))
+    # R2
+    from pyvc.interp import Interp
+    from pyvc.builtins_model import install
+    I = install(Interp())
+    mod, chain, node = I.src.find_def(func)
+    uses_visited, uses_t = [], []
+    parents = {}
+    for n in ast.walk(node):
+        for ch in ast.iter_child_nodes(n):
+            parents[ch] = n
+    for n in ast.walk(node):
+        if isinstance(n, ast.Name) and n.id == "visited":
+            p = parents.get(n)
+            if isinstance(p, ast.Assign) and n in p.targets:
+                uses_visited.append("init:" + ast.unparse(p.value))
+            elif isinstance(p, ast.Compare) and len(p.ops) == 1 and isinstance(p.ops[0], ast.In) and p.comparators == [n]:
+                uses_visited.append("test:" + ast.unparse(parents.get(p)))
+            elif isinstance(p, ast.Attribute) and p.attr == "add":
+                uses_visited.append("add:" + ast.unparse(parents.get(p)))
+            else:
+                uses_visited.append("other:" + ast.unparse(p))
+        if isinstance(n, ast.Name) and n.id == "t" and isinstance(n.ctx, ast.Load):
+            uses_t.append(ast.unparse(parents.get(n)))
+    ok_visited = (sorted(set(x.split(":")[0] for x in uses_visited)) == ["add", "init", "test"]
+                  and all(x == "test:child in visited or unwrapped in visited" for x in uses_visited if x.startswith("test:"))
+                  and [x for x in uses_visited if x.startswith("init:")] == ["init:{root.type, root.unwrapped}"])
+    ok_t = sorted(uses_t) == sorted(["inspection.unwrap(t)", "TypeNode(t, u)"])
+    chk.add(Ob(func, "root-label::visited-is-read-only-through-the-membership-test-and-seeded-with-the-root-and-its-unwrapped-form", "ast", [],
+               z3.BoolVal(ok_visited), {"uses": uses_visited}))
+    chk.add(Ob(func, "root-label::the-root-annotation-is-used-only-to-build-the-root-node", "ast", [], z3.BoolVal(ok_t), {"uses": uses_t}))
